@@ -11,6 +11,16 @@ from vf.ref import scale as R
 
 F32 = np.float32
 MAX_ELEMS = 96
+DIM_MAX = 4
+
+
+def configure(tier):
+  """thorough: larger tensors (<= 256 elements, plain axes up to 6)."""
+  global MAX_ELEMS, DIM_MAX
+  if tier == "thorough":
+    MAX_ELEMS, DIM_MAX = 256, 6
+  else:
+    MAX_ELEMS, DIM_MAX = 96, 4
 ELEMWISE_MAX = 12
 TINY = 1e-30    # smaller magnitudes are generated as exact zeros (TF kernels
                 # flush subnormals, e.g. 1.2e-38/(1+1e-7), to zero)
@@ -35,7 +45,7 @@ def layout(draw, axis_modes=("none", "int", "list"), allow_eps=True,
   rank = draw(st.integers(min_rank, max_rank))
   mode = draw(st.sampled_from(list(axis_modes))) if rank > 1 else draw(
       st.sampled_from([m for m in axis_modes if m != "list"] or ["none"]))
-  shape = [draw(st.integers(1, 4)) for _ in range(rank)]
+  shape = [draw(st.integers(1, DIM_MAX)) for _ in range(rank)]
   if rank >= 1 and draw(st.booleans()):
     shape[-1] = draw(st.integers(2, 8))
   scale_axis, eps = None, None
